@@ -326,6 +326,8 @@ class HeapEngine(HeapOps):
             return ('handler', h_uuid4)
         if mod == 'uuid' and attr == 'UUID':
             return ('handler', h_UUID)
+        if mod == 'copy' and attr == 'copy':
+            return ('handler', h_copy_copy)
         return super().external_call(imp, attr)
 
     def py_str_of(self, v, st, node):
@@ -340,6 +342,48 @@ def h_uuid4(ex, e, st):
     s = const(fresh_name('uuid4'), STR)
     o = st.assume(App('canon_uuid', BOOL, s))
     return [(o, tm.Ctor('VOpq', App('uuid_obj', INT, s)))]
+
+
+def h_copy_copy(ex, e, st):
+    """copy.copy(x) of an odML object (no __copy__/__reduce__ overrides in the repo: scanned):
+    a new object of the same class whose every field holds the value of x's field (shallow).
+    Ghost: the copy reports the same parent, so it has x's ancestors and depth; it is in no list."""
+    out = []
+    for o, args, kw in bi.eval_args(ex, e, st):
+        if not o.running:
+            out.append((o, None))
+            continue
+        if len(args) != 1 or kw:
+            raise Unsupported('copy.copy arity at line %s' % e.lineno)
+        x = args[0]
+        cands = ex.classes_of(x, o)
+        if cands is None:
+            raise Unsupported('copy.copy of a value of unknown class at line %s' % e.lineno)
+        for cname, cond in cands:
+            o2 = o.assume(cond)
+            if o2 is None:
+                continue
+            ci = ex.prog.classes.get(cname)
+            if ci is None or 'list' in ci.builtin_bases():
+                raise Unsupported('copy.copy of %s at line %s' % (cname, e.lineno))
+            for special in ('__copy__', '__reduce__', '__reduce_ex__', '__getstate__', '__setstate__'):
+                if ci.lookup_method(special) is not None:
+                    raise Unsupported('copy.copy of %s which defines %s' % (cname, special))
+            fresh_before = list(o2.ghost.get('fresh', []))
+            o3, v = ex.allocate(cname, o2)
+            o3.ghost = dict(o3.ghost)
+            o3.ghost['fresh'] = fresh_before       # fields of the copy are set exactly as those of x
+            rx, rn = ex.rv(x), ex.rv(v)
+            for f in sorted(ex.all_fields(ci)):
+                o3.heap['f:' + f] = Store(ex.H(o3, f), rn, Select(ex.H(o3, f), rx))
+            AAB = '(Array Int (Array Int Bool))'
+            anc = ex.G(o3, 'anc', AAB)
+            dep = ex.G(o3, 'depth', '(Array Int Int)')
+            o3.heap['g:anc'] = Store(anc, rn, Select(anc, rx))
+            o3.heap['g:depth'] = Store(dep, rn, Select(dep, rx))
+            ex.touch(o3)
+            out.append((o3, v))
+    return out
 
 
 def h_UUID(ex, e, st):
@@ -615,13 +659,13 @@ class HeapVerifier(vcmod.FunctionVerifier):
                     obs[n].vcs.append(PathVC(list(f.pc), formula, f.trace, 'inv',
                                              note='on %s exit' % ('normal' if f.status == 'ret' else f.exc), state=f))
             self.obligations.extend(obs.values())
-        if getattr(c, 'pure', False):
-            ob = Obligation(fid + '#frame', 'the heap is not modified')
+        if getattr(c, 'pure', False) or getattr(c, 'frame_old', False):
+            ob = Obligation(fid + '#frame', 'no object that existed before the call is modified')
             for f in exits:
                 for n, formula in self.invb.same(pre.heap, f.heap, []):
                     ob.vcs.append(PathVC(list(f.pc), formula, f.trace, 'frame', note=n))
             self.obligations.append(ob)
-        elif c.on_raise == 'Same':
+        if c.on_raise == 'Same' and not getattr(c, 'pure', False):
             ob = Obligation(fid + '#on_raise.Same', 'a refused operation changes nothing (C06)')
             for f in exits:
                 if f.status != 'exc':
